@@ -189,3 +189,12 @@ Proof.
   - unfold selmat. rewrite Nat.eqb_refl. ring.
   - intros j _ Hj. unfold selmat. destruct (Nat.eqb_spec j (nth i S 0)); [contradiction|ring].
 Qed.
+
+(* the two branches of determinant() agree where they meet (p = m), shown here for m = 1 and m = 2:
+   det(B_S^T B_S) = (det B_S)^2 = optimality^2.  (General m needs multiplicativity of the Laplace determinant: not proved.) *)
+Theorem det_branches_agree_1 (a : Qc) : (det (transpose_mul [[a]]) = det [[a]] * det [[a]])%Qc.
+Proof. unfold transpose_mul. cbn [map hd length seq nth qsum fold_right]. rewrite !det1. ring. Qed.
+
+Theorem det_branches_agree_2 (a b c d : Qc) :
+  (det (transpose_mul [[a; b]; [c; d]]) = det [[a; b]; [c; d]] * det [[a; b]; [c; d]])%Qc.
+Proof. unfold transpose_mul. cbn [map hd length seq nth qsum fold_right]. rewrite !det2. ring. Qed.
